@@ -61,7 +61,7 @@ MANIFEST = dict(
          'regenerated from the source on every run and kernel-checked as named instance obligations; all hand models are compared with the '
          'implementation on generated and shipped data; the whole bundled database and generated FGDs are exported, parsed and exported '
          'again, serialised to the binary format and back (also as small databases that exercise the overflow blocks), queried lazily in '
-         'random orders, and queried with an added database in front of the bundled one.',
+         'random orders, queried with an added database in front of the bundled one, and asked again after the caller changed the answers.',
     note='Still search only: @include, @mapsize, @MaterialExclusion, @AutoVisgroup and @snippet bodies, autovis() helpers, '
          'FGD.sorted_ents, and the character-level lexing of everything except quoted strings (bare words, punctuation, comments): '
          'the line and header models work on the token stream of the real Tokenizer and are tied to the exporters/parsers by token-exact '
@@ -3025,6 +3025,119 @@ def check_added_database(ck: Optional[Ck], names: list[str], seed: int, n_bundle
     return out
 
 
+# =============================================================================================== answers are the caller's own
+ISOLATION_MUTATIONS = ['add-keyvalue', 'change-default', 'change-io-desc', 'drop-bases', 'mutate-base', 'drop-inputs', 'rename']
+
+
+def mutate_answer(ent: Any, how: str) -> bool:
+    """Change a definition the way a caller may change what engine_def / engine_dbase handed out.  False = not applicable."""
+    from srctools.fgd import EntityDef, KVDef, ValueTypes
+    if how == 'add-keyvalue':
+        ent.keyvalues['c16_added'] = {frozenset(): KVDef('c16_added', ValueTypes.STRING, 'Added', 'x')}
+        ent.kv_order.append('c16_added')
+        return True
+    if how == 'change-default':
+        for tm in ent.keyvalues.values():
+            for kv in tm.values():
+                kv.default = 'c16-changed'
+                kv.disp_name = 'c16 changed'
+                return True
+        return False
+    if how == 'change-io-desc':
+        for cat in (ent.inputs, ent.outputs):
+            for tm in cat.values():
+                for o in tm.values():
+                    o.name = 'C16Changed'
+                    o.type = ValueTypes.VEC
+                    return True
+        return False
+    if how == 'drop-bases':
+        if not ent.bases:
+            return False
+        ent.bases.clear()
+        return True
+    if how == 'mutate-base':
+        for b in ent.bases:
+            if isinstance(b, EntityDef):
+                return mutate_answer(b, 'add-keyvalue')
+        return False
+    if how == 'drop-inputs':
+        if not ent.inputs and not ent.outputs:
+            return False
+        ent.inputs.clear()
+        ent.outputs.clear()
+        return True
+    if how == 'rename':
+        ent.classname = 'c16_renamed'
+        ent.desc = 'changed'
+        return True
+    raise ValueError(how)
+
+
+def deep_canon(e: Any) -> dict:
+    """multi_canon plus the content of the base definitions one level down (a caller can reach them through `.bases`)."""
+    from srctools.fgd import EntityDef
+    c = multi_canon(e)
+    c['base_defs'] = [multi_canon(b) for b in e.bases if isinstance(b, EntityDef)]
+    return c
+
+
+def check_isolation(cases: list[tuple[str, str]], via: str) -> list[tuple[str, str, str]]:
+    """One history on a fresh list of databases: for every (class, change) ask for the definition (engine_def, or once the whole
+    database), change the answer, ask again; at the end load the whole database: every later answer must be the first answer.
+    Returns [(class, change, what differs)]."""
+    from srctools import fgd as F
+    out: list[tuple[str, str, str]] = []
+    with engine_db_list(None):
+        whole0 = F.FGD.engine_dbase() if via == 'engine_dbase' else None
+        before: dict[str, tuple[str, dict]] = {}
+        firsts: dict[str, Any] = {}
+        for name, how in cases:        # all first answers are taken (and described) before anything is changed: inside ONE answer of
+            if name not in firsts:     # engine_dbase() the definitions rightly share their base objects
+                firsts[name] = F.EntityDef.engine_def(name) if whole0 is None else whole0.entities[name]
+                before[name] = (how, deep_canon(firsts[name]))
+        for name, (how, canon) in list(before.items()):
+            if not mutate_answer(firsts[name], how):
+                del before[name]
+        for name, (how, canon) in before.items():
+            again = deep_canon(F.EntityDef.engine_def(name))
+            if again != canon:
+                out.append((name, how, f'EntityDef.engine_def({name!r}) after the caller changed ({how}) what {via} had returned differs in '
+                                       f'{diff_fields(canon, again)} from the first answer'))
+        whole = F.FGD.engine_dbase()
+        for name, (how, canon) in before.items():
+            got = deep_canon(whole.entities[name])
+            if got != canon and not any(n == name for n, _, _ in out):
+                out.append((name, how, f'FGD.engine_dbase().entities[{name!r}] after the caller changed ({how}) what {via} had returned differs in '
+                                       f'{diff_fields(canon, got)} from the first answer'))
+    return out
+
+
+def search_isolation(ck: Ck, names: list[str]) -> None:
+    """State carried between calls: what engine_def() / engine_dbase() return belongs to the caller; changing it must not change what
+    the next look-up or the whole database says (the lazily decoded definitions are cached inside the database objects)."""
+    rng = ck.rng
+    for i in range(ck.budget(3, 30)):
+        via = 'engine_dbase' if i % 3 == 2 else 'engine_def'
+        cases = [(rng.choice(names), how) for how in ISOLATION_MUTATIONS for _ in range(2)]
+        rng.shuffle(cases)
+        try:
+            found = check_isolation(cases, via)
+        except Exception as ex:   # noqa: BLE001
+            found = [(cases[0][0], cases[0][1], f'raises {type(ex).__name__}: {ex}')]
+        ck.count('search_isolation', len(cases))
+        for name, how in cases:
+            ck.hist('isolation', f'{via}:{how}')
+        ck.seen(('isolation', via, tuple(cases)))
+        for name, how, what in found:
+            single = [(name, how)]
+            try:
+                alone = check_isolation(single, via)
+            except Exception:   # noqa: BLE001
+                alone = []
+            ck.violation(f'lazy-answer-not-isolated:{via}:{how}', what,
+                         {'kind': 'isolation', 'cases': [list(x) for x in (single if alone else cases)], 'via': via})
+
 # =============================================================================================== main
 def timed(label: str, fn: Callable[..., Any], *args: Any) -> Any:
     """Run one stage; with C16_TIMING set, print its wall time to stderr (information only, never part of a result)."""
@@ -3205,6 +3318,7 @@ def search_groups(data: bytes, tb: dict) -> list[list[tuple[str, Callable[..., A
          ('search_bundled', search_bundled, ()),
          ('search_type_text', search_type_text, ()),
          ('search_multi_db', search_multi_db, (data, tb)),
+         ('search_isolation', search_isolation, (tb['names'],)),
          ('search_lazy_synthetic', search_lazy_synthetic, ())],
         [('search_generated', search_generated, ()),
          ('search_binary', search_binary, (data,)),
@@ -3425,7 +3539,8 @@ def run(ck: Ck) -> None:
                'line parsers with and without ignore_unknown_valuetype, and hand-written FGD texts with 1-6 such lines, non-trivial = has an '
                'upper-case letter; custom value types on 12-15 % of the generated keyvalues / inputs / outputs; kind keywords of every '
                'EntityTypes member in random case; block builder: 1-14 entities with sizes on the scale of MAX_BLOCK_SIZE, random '
-               'overlapping pairs over a subset of them, non-trivial = more than one block and at least one pair')
+               'overlapping pairs over a subset of them, non-trivial = more than one block and at least one pair; answer isolation: histories '
+               'of 14 (class, change) pairs over the bundled database through engine_def or one engine_dbase(), distinct by content')
     ck.trusted.append('hand-written models Fmt/LongString.v, Fmt/FgdBin.v, Fmt/FgdBinEnt.v, Fmt/FgdLine.v, Fmt/FgdBody.v, Fmt/FgdHead.v, SM/LazyDb.v, SM/LazyDbMulti.v (tied by differential '
                       'correspondence on every run; decisive branches and layouts read from the source by the translator)')
     ck.trusted.append('hand-written models Fmt/FgdKindKw.v (top-level dispatch, str.title/replace on ASCII) and SM/FgdBlocks.v (block builder), tied by '
@@ -3550,7 +3665,7 @@ def run(ck: Ck) -> None:
         ck.explain('instance:text_kind_')
         ck.explain('correspondence:text_kind_keyword')
     # a translator that failed closed at a site is explained by a concrete violation of the mechanism that site belongs to
-    site_of = (('engine_dbase', 'lazy-multi-db'), ('engine_def', 'lazy-multi-db'), ('add_engine_database', 'lazy-multi-db'), ('EngineDB', 'lazy-'), ('_parse_block', 'lazy-'), ('get_fgd', 'lazy-'), ('serialise', 'binary-'), ('build_blocks', 'binary-'), ('BinStrDict', 'binary-'),
+    site_of = (('engine_dbase', 'lazy-'), ('engine_def', 'lazy-'), ('add_engine_database', 'lazy-'), ('EngineDB', 'lazy-'), ('_parse_block', 'lazy-'), ('get_fgd', 'lazy-'), ('serialise', 'binary-'), ('build_blocks', 'binary-'), ('BinStrDict', 'binary-'),
                ('_write_longstring', 'longstring:'), ('_fgd_escape', 'longstring:'), ('ESCAPE', 'longstring:'),
                ('KVDef.export', 'generated-fgd'), ('IODef.export', 'generated-fgd'), ('EntityDef.export', 'generated-fgd'),
                ('KVDef._parse', 'type-text-'), ('IODef._parse', 'type-text-'), ('VALUE_TYPE_LOOKUP', 'type-text-'), ('ValueTypes', 'type-text-'), ('VALUE_TO_IO_DECAY', 'generated-fgd'), ('VALUE_TO_IO_DECAY', 'type-text-'),
@@ -3632,6 +3747,13 @@ def replay(data: dict) -> int:
         w = check_blocks(r['sizes'], [tuple(p) for p in r['pairs']])
         print('VIOLATION ' + w if w else 'every entity is in exactly one block')
         return 1 if w else 0
+    if kind == 'isolation':
+        w2 = check_isolation([tuple(x) for x in r['cases']], r['via'])
+        for _, _, t in w2:
+            print('VIOLATION', t)
+        if not w2:
+            print('every later answer and the whole database equal the first answers')
+        return 1 if w2 else 0
     if kind == 'type_text':
         print(r['text'])
         found_t = check_type_text([tuple(x) for x in r['lines']])
